@@ -58,7 +58,7 @@ def run(tier):
     res, vecs = generate("MC_C07", "MC_C07_exh_%s.cfg" % tier, workers=8 if quick else 14, timeout=3000)
     rep.add_tlc(res)
     sims = common.simulate_parallel("MC_C07", "MC_C07_sim_%s.cfg" % tier, procs=6 if quick else 14,
-                                    num=300 if quick else 6000, depth=420, timeout=3000)
+                                    num=300 if quick else 6000, depth=420, timeout=3000 if quick else 1500)     # thorough: a time box
     seen = set(json.dumps(v, sort_keys=True) for v in vecs)
     for sim in sims:
         tlc_ok(sim, "C07 simulation")
